@@ -355,6 +355,7 @@ func (fr *Frame) box(v Val, reach string) string {
 		}
 		switch ut.Kind() {
 		case types.String:
+			u.assume(eq(app("i2str", app("str2i", v.T)), v.T)) // boxing a string is injective
 			return app("mk_Iface", tag, app("str2i", v.T))
 		case types.Bool:
 			return app("mk_Iface", tag, ite(v.T, "1", "0"))
